@@ -35,7 +35,7 @@ def db_rows(path):
 
 class C15(vlib.Check):
     id = "C15"
-    props_modules = ["E3fpVerif.Props.C15"]
+    props_modules = ["E3fpVerif.Props.C15", "E3fpVerif.Props.C15Db"]
     gen_items = ["fprinter_consts"]
     rule = ("real runs of e3fp.fingerprint.generate.run over 5-8 SDF files (first = 2) in serial / threads / processes with 1, 2, 4 "
             "workers, shuffled input lists, 1-2 inputs replaced by unreadable files; databases compared as multisets of named rows "
